@@ -565,6 +565,9 @@ func (c *replayCase) blameFn(o1, o2 run.Outcome) string {
 	}
 	for _, lg := range [][]string{o2.Log, o1.Log} {
 		if i < len(lg) {
+			if strings.HasPrefix(lg[i], `s"load m`) || strings.HasPrefix(lg[i], `[s"m0.`) || strings.HasPrefix(lg[i], `[s"m1.`) {
+				return "importing" // a module body / module function logged here
+			}
 			if m := fnNameRe.FindStringSubmatch(lg[i]); m != nil {
 				if sh, ok := c.FnShapes[m[1]]; ok {
 					return sh
